@@ -183,8 +183,9 @@ func SetClockNs(t uint64) {
 	clk.ms, clk.ns = t/1000000, t
 	clk.mu.Unlock()
 }
-func LastSleepNs() int64 { clk.mu.Lock(); defer clk.mu.Unlock(); return clk.lastSleep }
-func SleepCount() int    { clk.mu.Lock(); defer clk.mu.Unlock(); return clk.sleeps }
+func FrozenClockNs() uint64 { clk.mu.Lock(); defer clk.mu.Unlock(); return clk.ns }
+func LastSleepNs() int64    { clk.mu.Lock(); defer clk.mu.Unlock(); return clk.lastSleep }
+func SleepCount() int       { clk.mu.Lock(); defer clk.mu.Unlock(); return clk.sleeps }
 
 // ---- threads (sequential natively; interleaving replays use the instrumented scheduler) ----
 func Spawn(f func())    { f() }
